@@ -21,7 +21,8 @@ _poly_integrate, _poly_poisson, _poly_evaluate   polyIntegrate, polyPoisson, pol
 operations.py graded lists                       polynomialZeroList, polynomialVariable, polynomialAddInplace,
                                                  polynomialMultiply, polynomialPower, polynomialPoissonBracket,
                                                  polynomialDifferentiate, polynomialIntegrate, polynomialEvaluate,
-                                                 linearVariablePolys, substituteLinear, substituteAffine, polynomialClean
+                                                 linearVariablePolys, substituteLinear, substituteAffine, polynomialClean,
+                                                 polynomialJacobian, polynomialDegree, getDegree, polynomialTotalDegree
 -/
 namespace HitenModel.C06
 
@@ -297,6 +298,34 @@ def polynomialDifferentiate (clmo : List (List Nat)) (σ : Nat → List (List Na
       let t := polyDiffSched clmo (P.getD dorig []) var dorig (σ (P.getD dorig []).length)
       if dres < R.length ∧ (R.getD dres []).length = t.length then R.set dres t else R
     else R) (polynomialZeroList dmax)
+
+/-- `_polynomial_jacobian`: the six `_polynomial_differentiate` results, in variable order (the `prange` over the six variables only
+appends whole results; each call has its own scheduler-independent value) -/
+def polynomialJacobian (clmo : List (List Nat)) (σ : Nat → List (List Nat)) (P : GPoly K) (maxDeg : Nat) : List (GPoly K) :=
+  (List.range 6).map fun v => polynomialDifferentiate clmo σ P v maxDeg
+
+/-- `_polynomial_degree`: the highest index whose block has a non-zero coefficient, `-1` for the zero polynomial / the empty list -/
+def polynomialDegree (P : GPoly K) : Int :=
+  match (List.range P.length).reverse.find? fun d => anyNZ (P.getD d []) with
+  | some d => (d : Int)
+  | none => -1
+
+/-- `_get_degree(p, psi)`: the first `d ≤ D` (`D + 1` = number of columns of the psi table) with `psi[6, d] = len(p)`, `-1` if none
+(the empty array is rejected first) -/
+def getDegree (D : Nat) (p : List K) : Int :=
+  if p.length = 0 then -1 else
+  match (List.range (D + 1)).find? fun d => psi 6 d == p.length with
+  | some d => (d : Int)
+  | none => -1
+
+/-- `_polynomial_total_degree(p, psi)`: like `_polynomial_degree`, but a block only counts when its length is the length of its index
+(`_get_degree(block) = index`); empty blocks are skipped -/
+def polynomialTotalDegree (D : Nat) (P : GPoly K) : Int :=
+  (List.range P.length).foldl (fun best d =>
+    let b := P.getD d []
+    if b.length = 0 then best
+    else if getDegree D b ≠ (d : Int) then best
+    else if anyNZ b then max best (d : Int) else best) (-1)
 
 /-- `_polynomial_integrate` -/
 def polynomialIntegrate [Div K] (clmo : List (List Nat)) (P : GPoly K) (var maxDeg : Nat) : GPoly K :=
